@@ -739,7 +739,19 @@ def run_viseca_chain(chk, n):
         if not a.startswith("(ok "):
             chk.violation("harness could not run the case: " + a[:200], replay, no_failing_input=True, tag="err")
             continue
-        imp = sx_find(sx_parse(a), "import")
+        parsed = sx_parse(a)
+        imp = sx_find(parsed, "import")
+        cmdv = sx_find(parsed, "cmd")
+        cmdv = cmdv[1] if cmdv and len(cmdv) > 1 else "-"
+        chk.count("viseca-chain:command:" + str(cmdv).split(":")[0])
+        if str(cmdv).startswith("diff"):
+            # the COMMAND (`okane import` on files: statement reached through a symbolic link, configuration with one more document whose
+            # `path` matches only the link's target) prints something else than the library path that selects by the path as typed
+            chk.oracle_failures += 1
+            chk.violation("C17: `okane import` applies a configuration document whose `path` does not occur in the path as typed "
+                          "(or otherwise departs from ConfigSet::select on that path): its output differs from the selected configuration's",
+                          dict(replay, command=str(cmdv)[5:2000]))
+            continue
         if not imp or imp[1][0] != "ok":
             chk.oracle_failures += 1
             chk.violation("a well-formed Viseca statement with valid rules was not imported: %s" % sx_str(imp)[:200], replay)
